@@ -1,5 +1,5 @@
 (* Extraction of the EVM instruction model + specification for ocaml/evm/driver.ml.  ExtrOcamlBasic only. *)
-From AQ Require Import Lib.Bytes Lib.ExtractBase Evm.OpsModel Evm.OpsSpec Evm.OpsTableSpec Evm.OpsKeccak.
+From AQ Require Import Lib.Bytes Lib.ExtractBase Evm.OpsModel Evm.OpsSpec Evm.OpsTableSpec Evm.OpsKeccak Evm.OpsMemStep.
 Require Extraction.
 Require Import ExtrOcamlBasic.
 Extraction "../ocaml/evm/model.ml" base_anchor
@@ -17,5 +17,6 @@ Extraction "../ocaml/evm/model.ml" base_anchor
   op_SHA3 keccakZ spec_SHA3 op_ENV spec_ENV op_POP enforceRestrictions select_rules
   GasTableHomestead_full GasTableHF1_full select_gastable_full gasBalance gasExtCodeSize gasSLoad gasSStore gasCall gasCallCode
   gasDelegateCall gasStaticCall gasSuicide
+  prepare_mem run_MLOAD run_MSTORE run_MSTORE8 run_DATACOPY run_RETURNDATACOPY run_SHA3 run_RETURN run_LOG
   op_BLOCKHASH spec_BLOCKHASH memoryCall memoryCreate
   C_sstore R_sstore C_extra C_call C_xfer C_selfdestruct R_selfdestruct.
